@@ -14,7 +14,7 @@ structure A64WF (f : Frame) : Prop where
   localFits : f.localEnd ≤ f.ppOff
   adj : f.stackAdj = f.ppOff ∧ f.stackAdj % 16 = 0
   total : f.ppOff + f.ppSize = f.finalSize ∧ f.saOffSp = f.finalSize
-  pei : (peiInit f).total = f.ppSize ∧ f.ppSize % 16 = 0 ∧ f.finalSize < 2 ^ 30
+  pei : a64Total f = f.ppSize ∧ f.ppSize % 16 = 0 ∧ f.finalSize < 2 ^ 30
   first : ∀ it rest, a64Items f = it :: rest → it.1.2.2.2.2 = 0 ∧ itemsAsc (pBytes it.1) rest
             ∧ itemsEnd (pBytes it.1) rest ≤ f.ppSize ∧ 0 < pBytes it.1
   empty : a64Items f = [] → f.ppSize = 0
@@ -68,8 +68,8 @@ theorem flatMap_congr' {α β : Type} (l : List α) (f g : α → List β) (h : 
     rw [List.flatMap_cons, List.flatMap_cons, h a (by simp), ih (fun x hx => h x (List.mem_cons_of_mem _ hx))]
 
 theorem stores_cons (f : Frame) (it : PSlot × Bool) (rest : List (PSlot × Bool)) (h : a64Items f = it :: rest)
-    (hoff : ∀ x ∈ rest, x.1.2.2.2.2 ≠ 0) (h0 : it.1.2.2.2.2 = 0) (ht : (peiInit f).total ≠ 0) :
-    a64Stores f = (stPre (peiInit f).total it.1 :: (if it.2 then [Instr.mov 29 31] else [])) ++ rest.flatMap stItem := by
+    (hoff : ∀ x ∈ rest, x.1.2.2.2.2 ≠ 0) (h0 : it.1.2.2.2.2 = 0) (ht : a64Total f ≠ 0) :
+    a64Stores f = (stPre (a64Total f) it.1 :: (if it.2 then [Instr.mov 29 31] else [])) ++ rest.flatMap stItem := by
   unfold a64Stores
   rw [h, List.flatMap_cons]
   obtain ⟨p, mv⟩ := it
@@ -84,8 +84,8 @@ theorem stores_cons (f : Frame) (it : PSlot × Bool) (rest : List (PSlot × Bool
     rw [a64St_rest _ _ (hoff (q, mq) hx)]
 
 theorem loads_cons (f : Frame) (it : PSlot × Bool) (rest : List (PSlot × Bool)) (h : a64Items f = it :: rest)
-    (hoff : ∀ x ∈ rest, x.1.2.2.2.2 ≠ 0) (h0 : it.1.2.2.2.2 = 0) (ht : (peiInit f).total ≠ 0) :
-    a64Loads f = rest.reverse.map (fun x => ldFix x.1) ++ [ldPost (peiInit f).total it.1] := by
+    (hoff : ∀ x ∈ rest, x.1.2.2.2.2 ≠ 0) (h0 : it.1.2.2.2.2 = 0) (ht : a64Total f ≠ 0) :
+    a64Loads f = rest.reverse.map (fun x => ldFix x.1) ++ [ldPost (a64Total f) it.1] := by
   unfold a64Loads
   rw [h, List.reverse_cons, List.map_append]
   congr 1
@@ -142,7 +142,7 @@ theorem a64_saves (f : Frame) (wf : A64WF f) (s0 : St) (sp0 : Nat) (hsp : s0.gp 
     have hoffne := itemsAsc_off_pos rest _ hpos hasc
     have hbound := itemsAsc_bound rest _ hasc
     have hendge := itemsEnd_ge rest _ hasc
-    have htne : (peiInit f).total ≠ 0 := by rw [htot]; omega
+    have htne : a64Total f ≠ 0 := by rw [htot]; omega
     have hppsm : f.ppSize < 2 ^ 30 := by have := wf.total.1; omega
     generalize hQ : sp0 - f.ppSize = Q at *
     have hQal : Q % 16 = 0 := by
@@ -151,7 +151,7 @@ theorem a64_saves (f : Frame) (wf : A64WF f) (s0 : St) (sp0 : Nat) (hsp : s0.gp 
       rw [this, Nat.mul_mod_right]
     -- first store, with the pre-indexed sp adjustment
     let sA : St := ({ s0 with mem := pStore s0 p0 Q }).setGp 31 Q
-    have hstA : step .a64 (stPre (peiInit f).total p0) s0 = some sA := by
+    have hstA : step .a64 (stPre (a64Total f) p0) s0 = some sA := by
       rw [step_stPre _ p0 s0 hret0 (by rw [hsp]; exact hal) (by rw [htot]; omega) (by rw [htot, hsp]; exact hroom), hsp, htot,
         hQ]
     have hmov : ∃ sB, run .a64 (if mv0 then [Instr.mov 29 31] else []) sA = some sB ∧ sB.mem = sA.mem ∧ sB.x = s0.x
@@ -213,11 +213,11 @@ theorem a64_saves (f : Frame) (wf : A64WF f) (s0 : St) (sp0 : Nat) (hsp : s0.gp 
         have := t3'out 0 31 h31r
         simp only [St.reg, if_true] at this
         rw [this]; exact h2sp
-      let t3 : St := pLoad (t3'.setGp 31 (t3'.gp 31 + (peiInit f).total)) t3'.mem p0 (t3'.gp 31)
-      have hld : step .a64 (ldPost (peiInit f).total p0) t3' = some t3 :=
+      let t3 : St := pLoad (t3'.setGp 31 (t3'.gp 31 + a64Total f)) t3'.mem p0 (t3'.gp 31)
+      have hld : step .a64 (ldPost (a64Total f) p0) t3' = some t3 :=
         step_ldPost _ p0 t3' t3'ret (by rw [t3'sp]; exact hQal) (by rw [htot]; omega)
       obtain ⟨pl1, pl2, pl3, pl4⟩ :=
-        pLoad_reg (t3'.setGp 31 (t3'.gp 31 + (peiInit f).total)) t3'.mem p0 (t3'.gp 31) hndp
+        pLoad_reg (t3'.setGp 31 (t3'.gp 31 + a64Total f)) t3'.mem p0 (t3'.gp 31) hndp
       refine ⟨t3, ?_, ?_, by simp only [t3]; rw [pl3]; simp [t3'mem], by simp only [t3]; rw [pl4]; exact t3'ret, ?_, ?_⟩
       · rw [loads_cons f (p0, mv0) rest hitems hoffne h0 htne, run_append, rl, Option.bind_some]
         exact run_one _ _ _ _ hld
